@@ -18,8 +18,9 @@ template<class C> static std::string linkCanon(C& c)
   auto* e = &c.endItem;
   decltype(e) last = 0;
   int n = 0;
-  for(auto* i = c._begin.item; i && i != e && n < 1000; i = i->next) { last = i; ++n; }
-  return vf::fmt(" n%d/%d end.prev=%s", n, (int)c._size, !e->prev ? "null" : e->prev == last ? "last" : "STALE");
+  bool back = true;
+  for(auto* i = c._begin.item; i && i != e && n < 1000; i = i->next) { if(i->prev != last) back = false; last = i; ++n; }
+  return vf::fmt(" n%d/%d end.prev=%s%s", n, (int)c._size, !e->prev ? "null" : e->prev == last ? "last" : "STALE", back ? "" : " prev!");
 }
 #else
 template<class C> static std::string poolCanon(C&, C&) { return std::string(); }
